@@ -389,6 +389,20 @@ fn base_cases(tier: Tier) -> Vec<Case> {
         push(&mut v, 3, vec![vec![B::Sub(0, 1), B::Sub(1, 1), B::Sub(2, 1), again, B::Sub(1, 1), B::Pub(1, 41)]], Some(if q { 2 } else { 4 }));
         push(&mut v, 2, vec![vec![B::SubCtx(0, 1), B::Sub(1, 1), B::RestartSub(0), again, B::Pub(1, 41)]], if q { Some(3) } else { None });
     }
+    // the order in which actors subscribe is not the order in which they were created: whatever
+    // order three of them arrive in, each can subscribe again (still one subscription) and each
+    // can leave (and gets nothing more), the others untouched
+    for perm in [[0u8, 1, 2], [0, 2, 1], [1, 0, 2], [1, 2, 0], [2, 0, 1], [2, 1, 0]] {
+        for k in 0..3u8 {
+            let head = vec![B::Sub(perm[0], 1), B::Sub(perm[1], 1), B::Sub(perm[2], 1)];
+            let mut again = head.clone();
+            again.extend([B::Sub(k, 1), B::Pub(1, 41)]);
+            push(&mut v, 3, vec![again], Some(if q { 1 } else { 3 }));
+            let mut leave = head.clone();
+            leave.extend([B::Unsub(k, 1), B::Pub(1, 41)]);
+            push(&mut v, 3, vec![leave], Some(if q { 1 } else { 3 }));
+        }
+    }
     // two subscribers, one publisher client: same order at both
     for p in pubs(41) {
         push(&mut v, 2, vec![vec![B::Sub(0, 1), B::Sub(1, 1), p, B::Pub(1, 42)]], None);
